@@ -12,11 +12,14 @@ from ..util import (has_call, find_calls, assigned_value, const_str, unparse, kw
                     guards_of, call_tail, control_ancestors, alpha)
 from .. import mutate as M
 
+TECHNIQUE = 'static analysis: per-arm yield/guard rules (one interaction per row), provenance of context / label / shared action list, label-type -> reward table, structural Jaccard definition, reader yield-guard rule, key-domain agreement of label read and label drop'
+
 EXPLANATION = ("Provenance and table rules over SupervisedSimulation: each row-type arm yields exactly one interaction per row, "
                "unconditionally and in order; context and reward argument come from the same row (feats/label or [0]/[1]); the "
                "action list is built from the labels of all materialised rows, de-duplicated and sorted, and is the same object "
                "in every interaction; label types map r->L1Reward, m->HammingReward, c->BinaryReward; take becomes "
                "Reservoir(take) joined before LabelRows.")
+EXPLANATION += ' R7: Jaccard denominator/numerator and list-only unwrapping; R8: LibSVM yields every labelled line; R9: label read and label drop use the same key domain.'
 
 SUP = "coba/environments/supervised.py"
 
